@@ -210,6 +210,11 @@ fn parse_domain(name: &str, fragment: &yaml::Yaml) -> Result<Option<String>, Err
 /// The option length is an octet counting units of 8 octets, one of them being the header.
 pub const MAX_DNSSL_OCTETS: usize = 254 * 8;
 
+/* The Captive-Portal option (RFC8910) holds the URL after the type and length octets, and the length octet
+ * counts units of 8 octets: 255 * 8 - 2 octets of URL is all it can carry.
+ */
+pub const MAX_CAPTIVE_PORTAL_OCTETS: usize = 255 * 8 - 2;
+
 /// The size of a list of domain names in the encoding of the DNSSL option.
 pub fn dnssl_octets(domains: &[String]) -> usize {
     domains
@@ -373,7 +378,13 @@ fn parse_interface(name: &str, fragment: &yaml::Yaml) -> Result<Option<Interface
                 (Some("dns-servers"), e) => rdnss = parse_rdnss("dns-servers", e)?,
                 (Some("dns-search"), e) => dnssl = parse_dnssl("dns-search", e)?,
                 (Some("captive-portal"), e) => {
-                    captive_portal = ConfigValue::from_option(parse_string("captive-portal", e)?)
+                    let url = parse_string("captive-portal", e)?;
+                    if url.as_ref().is_some_and(|u| u.len() > MAX_CAPTIVE_PORTAL_OCTETS) {
+                        return Err(Error::InvalidConfig(
+                            "captive-portal does not fit in a router advertisement option".into(),
+                        ));
+                    }
+                    captive_portal = ConfigValue::from_option(url)
                 }
                 (Some(key), _) => {
                     return Err(Error::InvalidConfig(format!(
